@@ -29,7 +29,7 @@ func checkC19(p *Program, r *Report) {
 	r.Explain("C19: R1 every entry K: reflect.ValueOf(X) / reflect.TypeOf(X) stored in env.Packages[P] / env.PackageTypes[P] resolves (go/types) to the exported object or named type K of the package whose import path is P — exhaustive over all table entries of the loaded build configuration. " +
 		"R2 P is a string constant and all entries of the table come from package P. " +
 		"R3 every builtin the statement lists is defined by core.Import with a function value of the contract's result type; no process-exit call is reachable in core/packages table code. " +
-		"R6 a byte of a string converted to a rune only where the string is known to hold a single byte (the first character of a string is its first rune). R7 strconv.FormatFloat with bitSize 32 only for a value that is a float32. " +
+		"R8 in the builtins reflect.Value.Convert(t) only on the true side of ConvertibleTo(t). R6 a byte of a string converted to a rune only where the string is known to hold a single byte (the first character of a string is its first rune). R7 strconv.FormatFloat with bitSize 32 only for a value that is a float32. " +
 		"R5 an integer read from a numeral string is parsed exactly: a strconv.ParseFloat whose result is truncated to an integer lies on the failure edge of strconv.ParseInt of the same string. " +
 		"R4 structural clauses of range/keys/toSlice on SSA: argument-count and zero-step rejections dominate the loop; the loop is a counting loop appending its own induction variable with strict bounds in both directions; keys copies one element per MapKeys entry; toSlice stores Zero on the non-convertible edge.")
 	r.Assume("numeric behaviour of range near the int64 limits and of toInt/toFloat/toString versus strconv/fmt is value-level and not decided")
@@ -392,6 +392,7 @@ func c19Builtin(p *Program, r *Report) {
 
 	c19ExactFirst(p, r)
 	c19TextConversions(p, r)
+	c19ConvertGuarded(p, r)
 	// R4: structural clauses on SSA
 	lits := map[string]*ssa.Function{}
 	for _, fn := range SrcFuncs(sp) {
@@ -999,6 +1000,67 @@ func isFloat32Value(v ssa.Value, b *ssa.BasicBlock) bool {
 	}
 	if c, ok := v.(*ssa.Call); ok && reflectMethod(c) == "Float" {
 		return dominatedByKind(b, 13)
+	}
+	return false
+}
+
+// c19ConvertGuarded (R8): in the builtins, reflect.Value.Convert(t) runs only where Type().ConvertibleTo(t) said yes: the
+// conversion builtins must give 0 / false / the zero value for values that cannot be converted, not fail (Convert panics) -
+// and must not skip the conversion for values that can.
+func c19ConvertGuarded(p *Program, r *Report) {
+	sp := p.SSAPkg("core")
+	if sp == nil {
+		return
+	}
+	n := 0
+	for _, fn := range SrcFuncs(sp) {
+		k := 0
+		for _, b := range fn.Blocks {
+			for _, in := range b.Instrs {
+				c, ok := in.(*ssa.Call)
+				if !ok || reflectMethod(c) != "Convert" {
+					continue
+				}
+				n++
+				k++
+				good := false
+				for d := b; d != nil && d.Idom() != nil && !good; d = d.Idom() {
+					id := d.Idom()
+					iff, ok := id.Instrs[len(id.Instrs)-1].(*ssa.If)
+					if !ok {
+						continue
+					}
+					// `a && b` conditions arrive as chains: look through the conjunction
+					cc, ok := iff.Cond.(*ssa.Call)
+					if !ok || !cc.Call.IsInvoke() || cc.Call.Method.Name() != "ConvertibleTo" {
+						continue
+					}
+					if sameTypeValue(cc.Call.Args[0], c.Call.Args[1]) && edgeOnly(id, 0, d) {
+						good = true
+					}
+				}
+				r.Check(good, "C19.R8", fmt.Sprintf("%s|Convert #%d guarded", funcName(fn), k), p.Pos(c.Pos()), "only on the true side of ConvertibleTo for the same type",
+					"a builtin converts a value with reflect.Value.Convert where ConvertibleTo of that type did not say yes (missing, negated or for another type): convertible values are not converted, or unconvertible ones make the builtin fail instead of yielding the zero value")
+			}
+		}
+	}
+	r.Floor("C19.R8", n, 4)
+}
+
+// sameTypeValue: two reflect.Type operands denote the same type (same SSA value, or reflect.TypeOf of equal constants).
+func sameTypeValue(a, b ssa.Value) bool {
+	if a == b {
+		return true
+	}
+	ca, ok1 := a.(*ssa.Call)
+	cb, ok2 := b.(*ssa.Call)
+	if ok1 && ok2 {
+		oa, ob := calleeObj(ca), calleeObj(cb)
+		if oa != nil && ob != nil && isFuncNamed(oa, "reflect", "", "TypeOf") && isFuncNamed(ob, "reflect", "", "TypeOf") {
+			ma, okA := ca.Call.Args[0].(*ssa.MakeInterface)
+			mb, okB := cb.Call.Args[0].(*ssa.MakeInterface)
+			return okA && okB && types.Identical(ma.X.Type(), mb.X.Type())
+		}
 	}
 	return false
 }
